@@ -190,7 +190,10 @@ def run_property(pid, tier="quick", seed=0, only=None, jobs=None, no_replay=Fals
                 k2 = k
             C.fns.setdefault(k2, f)
         C.assumptions.extend(a for a in extra.assumptions if a not in C.assumptions)
-        C.finite_checks.extend(extra.finite_checks)
+        # a restricted copy of another property's set (only_verify) brings the contracts named there, not that property's
+        # native histories (they are run - and reported - under their own property)
+        if extra.only_verify is None:
+            C.finite_checks.extend(extra.finite_checks)
     opts = {"fn_timeout": 240 if tier == "quick" else 900, "strings": getattr(C, "strings", False), "tier": tier,
             "seed": seed}
     if tier == "thorough":
